@@ -278,6 +278,11 @@ def _seed_packets():
     data2 = net.data_wire(n2, content=b'', sig=None)
     return {
         'interest': interest, 'param-interest': pinterest, 'data': data, 'unsigned-data': data2,
+        # signature elements in unusual combinations (digest recomputed, so they get past the parameters-digest check)
+        'sig-interest-no-sig-value': net.interest_wire(n1, nonce=81, app_param=b'ap', sig_info=T.enc_tlv(0x1b, b'\x00'), omit_sig_value=True),
+        'sig-interest-no-params': net.interest_wire(n1, nonce=82, sig_info=T.enc_tlv(0x1b, b'\x00')),
+        'sig-interest-no-params-no-value': net.interest_wire(n1, nonce=83, sig_info=T.enc_tlv(0x1b, b'\x00'), omit_sig_value=True),
+        'sig-interest-ecdsa-type-no-value': net.interest_wire(n1, nonce=84, app_param=b'', sig_info=T.enc_tlv(0x1b, b'\x03'), omit_sig_value=True),
         'nack': net.lp_wrap(interest, nack_reason=150),
         'nack-noreason': net.lp_wrap(interest, nack=True),
         'lp-data-token': net.lp_wrap(data, pit_token=b'\x01\x02\x03\x04'),
@@ -399,6 +404,16 @@ def run_robust(case):
                 sim.vl.call(sim.app.attach_handler, pf, lambda n, ap, rp, ctx, i=i: hcalls.append(i))
             else:
                 sim.vl.call(sim.app.set_interest_filter, pf, lambda n, p, ap, i=i: hcalls.append(i))
+        # a handler that the inputs themselves may address (everything under /x): whatever reaches it has gone through the whole
+        # Interest pipeline - digest check, validator in force - without an error
+        sink = []
+        if fe == 'v2':
+            async def _accept(_n, _s, _c):
+                from ndn.types import ValidResult
+                return ValidResult.PASS
+            sim.vl.call(sim.app.attach_handler, [net.comp('x')], lambda n, ap, rp, ctx: sink.append(1), _accept)
+        else:
+            sim.vl.call(sim.app.set_interest_filter, [net.comp('x')], lambda n, p, ap: sink.append(1))
         udp = None
         if target.startswith('udp'):
             udp = _open_udp(sim)
